@@ -42,6 +42,7 @@ type FuncSpec struct {
 	Name      string // canonical: pkgpath.Func or pkgpath.(Recv).Func or Outer$1
 	Pkg       string
 	Requires  []*Clause
+	TypeInvs  []*Clause // data invariants over unexported state: assumed at entry and at call sites from other packages, proved at call sites inside the owning package
 	Ensures   []*Clause
 	Loops     map[int]*LoopSpec
 	Sites     []*SiteSpec
@@ -110,7 +111,7 @@ type SpecDB struct {
 	Errors      []string
 }
 
-var clauseKW = map[string]bool{"functype": true, "func": true, "requires": true, "ensures": true, "modifies": true, "loop": true, "at": true,
+var clauseKW = map[string]bool{"typeinv": true, "functype": true, "func": true, "requires": true, "ensures": true, "modifies": true, "loop": true, "at": true,
 	"pure": true, "trusted": true, "inline": true, "may-panic": true, "replay:": true, "spec": true, "ghost": true, "field": true,
 	"axiom": true, "lemma": true, "bytes:": true, "safety": true, "noverify": true, "inline-callee": true, "opaque-callee": true, "end": true, "prop": true, "package": true}
 
@@ -233,6 +234,14 @@ func (db *SpecDB) LoadFile(path, pkgPath string) error {
 				cur.Requires = append(cur.Requires, c)
 			} else {
 				cur.Ensures = append(cur.Ensures, c)
+			}
+		case "typeinv":
+			if cur == nil {
+				db.errf(path, rc.line, "typeinv outside func")
+				continue
+			}
+			if c := mk("typeinv", rest, rc.line); c != nil {
+				cur.TypeInvs = append(cur.TypeInvs, c)
 			}
 		case "modifies":
 			if cur == nil {
